@@ -68,26 +68,39 @@ fn trailer_case(a: &mut Acc, s: &Seed, trailer: &[u8], front: usize) {
     }
 }
 
-/// (b) every strict prefix: an error, never finished, delivered bytes a prefix of the content
-fn truncation_case(a: &mut Acc, s: &Seed, k: usize, front: usize) {
+/// (b) every strict prefix: an error, never finished, delivered bytes a prefix of the content; on a new decoder
+/// and (reused = true) on a decoder that completed a checksummed frame before
+fn truncation_case(a: &mut Acc, s: &Seed, k: usize, front: usize, reused: Option<&Seed>) {
     a.evals += 1;
     a.nontrivial += 1;
     let data = &s.frame[..k];
-    let o = fe::run(front, data, s.plain.len() + 1024);
-    let rp = json!({"case": "truncation", "frame": show(&s.frame), "cut": k, "front_end": fe::FRONT_ENDS[front]});
+    let o = match reused {
+        None => fe::run(front, data, s.plain.len() + 1024),
+        Some(prev) => {
+            let mut dec = FrameDecoder::new();
+            let p = fe::run_on(&mut dec, 2, &prev.frame, prev.plain.len() + 64);
+            if !p.is_ok_with(&prev.plain) {
+                a.bad("MODEL:c10_prologue".into(), format!("prologue does not decode: {}", p.brief()), json!({}));
+                return;
+            }
+            fe::run_on(&mut dec, front, data, s.plain.len() + 1024)
+        }
+    };
+    let front_name = format!("{}{}", fe::FRONT_ENDS[front], if reused.is_some() { " on a reused decoder" } else { "" });
+    let rp = json!({"case": "truncation", "frame": show(&s.frame), "cut": k, "front_end": front_name});
     match &o.end {
-        End::Panic(p) => a.bad("truncation:panic".into(), format!("[{}] cut at {k}/{}: {} panicked: {p}", s.name, s.frame.len(), fe::FRONT_ENDS[front]), rp),
-        End::Ok => a.bad(format!("truncation:accepted:{}", fe::FRONT_ENDS[front]), format!("[{}] cut at {k} of {} bytes: {} ended successfully ({} bytes delivered, content has {}): silent truncation", s.name, s.frame.len(), fe::FRONT_ENDS[front], o.delivered.len(), s.plain.len()), rp),
+        End::Panic(p) => a.bad("truncation:panic".into(), format!("[{}] cut at {k}/{}: {} panicked: {p}", s.name, s.frame.len(), front_name), rp),
+        End::Ok => a.bad(format!("truncation:accepted:{}", front_name), format!("[{}] cut at {k} of {} bytes: {} ended successfully ({} bytes delivered, content has {}): silent truncation", s.name, s.frame.len(), front_name, o.delivered.len(), s.plain.len()), rp),
         End::Err(_) => {
             if o.finished && front != 5 && k >= 5 {
                 // `finished` before any frame was initialised (header cut) is the decoder's idle state
                 let header_done = zmodel::walker::parse_header(data).is_ok();
                 if header_done {
-                    a.bad(format!("truncation:finished:{}", fe::FRONT_ENDS[front]), format!("[{}] cut at {k} of {} bytes: {} failed but is_finished() is true", s.name, s.frame.len(), fe::FRONT_ENDS[front]), rp.clone());
+                    a.bad(format!("truncation:finished:{}", front_name), format!("[{}] cut at {k} of {} bytes: {} failed but is_finished() is true", s.name, s.frame.len(), front_name), rp.clone());
                 }
             }
             if !s.plain.starts_with(&o.delivered) {
-                a.bad(format!("truncation:not_prefix:{}", fe::FRONT_ENDS[front]), format!("[{}] cut at {k}: {} delivered {} bytes that are not a prefix of the content", s.name, fe::FRONT_ENDS[front], o.delivered.len()), rp);
+                a.bad(format!("truncation:not_prefix:{}", front_name), format!("[{}] cut at {k}: {} delivered {} bytes that are not a prefix of the content", s.name, front_name, o.delivered.len()), rp);
             }
         }
     }
@@ -217,10 +230,18 @@ pub fn main(tier: Tier, replay: Option<Value>) -> i32 {
             cuts.push((i, k));
         }
     }
+    let prior = seeds::windowed(true, 2);
     let accs = meter::par_fold(cuts.len(), th, Acc::default, |a, i| {
         let (si, k) = cuts[i];
         for f in 0..8 {
-            truncation_case(a, &fs[si], k, f);
+            truncation_case(a, &fs[si], k, f, None);
+        }
+        // on a decoder that completed a checksummed frame before (reader front ends; cuts near the end and a
+        // spread of the others)
+        if k + 6 >= fs[si].frame.len() || k % 5 == 0 {
+            for f in 0..5 {
+                truncation_case(a, &fs[si], k, f, Some(&prior));
+            }
         }
     });
     merge(&mut run, "C10", "every_truncation_point_every_front_end", accs, true);
@@ -264,7 +285,7 @@ pub fn main(tier: Tier, replay: Option<Value>) -> i32 {
     merge(&mut run, "C10", "multi_frame_sequences_every_target_size", accs, false);
     run.set("multi_frame_sequences", seqs.len() as u64);
     run.set("exhaustive", false);
-    run.set("rule", "(a) every frame followed by each of 261 trailers (empty, every single byte value, magic prefixes, a second frame, a skippable frame) through counting readers: bytes taken == bytes_read_from_source == frame length; (b) every strict prefix of every frame through 8 front ends: an error, never a finished state, delivered bytes a prefix of the content; (c) every sequence of up to 3 items over {3 small frames, skippable frames of length 0 and 5 for all 16 magic values} with and without trailing garbage / truncated skippable frames through decode_all and decode_all_to_vec with EVERY target size 0..=total+1: exact total or TargetTooSmall, canaries around the target intact, vector unchanged on failure");
+    run.set("rule", "(a) every frame followed by each of 261 trailers (empty, every single byte value, magic prefixes, a second frame, a skippable frame) through counting readers: bytes taken == bytes_read_from_source == frame length; (b) every strict prefix of every frame through 8 front ends on a new decoder, and the cuts within 6 bytes of the end plus every fifth other cut through 5 reader front ends on a decoder that completed a checksummed frame before: an error, never a finished state, delivered bytes a prefix of the content; (c) every sequence of up to 3 items over {3 small frames, skippable frames of length 0 and 5 for all 16 magic values} with and without trailing garbage / truncated skippable frames through decode_all and decode_all_to_vec with EVERY target size 0..=total+1: exact total or TargetTooSmall, canaries around the target intact, vector unchanged on failure");
     run.sample(json!({"case": "truncation", "frame": show(&fs[2].frame), "cuts": format!("1..{}", fs[2].frame.len())}));
     run.sample(json!({"case": "multi", "items": ["frame A", "skippable magic 0x184D2A5F len 5", "checksum frame B"], "targets": "0..=total+1"}));
     run.finish()
